@@ -1,4 +1,5 @@
 CONSTANTS
+  DirLen = 7
   MaxLen = 6
 INIT Init
 NEXT Next
